@@ -31,7 +31,7 @@ from simkit.rng import seed_globals  # noqa: E402
 from simkit.world import InvalidScenario, Monitor, Violation, repo_exception_sig, result, run_sim  # noqa: E402
 
 PROPERTY = "C14"
-RUNS = {"quick": 4500, "thorough": 600_000}
+RUNS = {"quick": 5000, "thorough": 600_000}
 WALL = {"quick": 90, "thorough": 1500}
 BATCH = {"quick": 50, "thorough": 400}
 SELFTEST_RUNS = 12
@@ -40,7 +40,7 @@ RULE = (
     "against flush/compaction windows of 0.5-5 ms) issuing 4-25 put/get/delete/scan ops each over 3-6 keys with unique "
     "values against LSMTree (size-tiered / leveled / FIFO compaction, memtable 1-8, 2-4 levels, thresholds 1-4, optional WAL, "
     "optional CompactionTrigger events), BTree (order 3-6) or unbounded KVStore; or 2-6 transactions (1-4 ops) through "
-    "TransactionManager at one isolation level over one of the three stores.  Non-trivial = at least one read overlapped a "
+    "TransactionManager (one isolation level for all, or a level drawn per transaction) over one of the three stores.  Non-trivial = at least one read overlapped a "
     "write/flush/compaction (storage) or at least two transactions overlapped (tx), and at least 3 reads were judged.  "
     "Distinct = distinct hashes of the recorded history (op kinds, keys, results, real-time order)."
 )
@@ -71,7 +71,10 @@ ASSUMPTIONS = [
     "the disk= Resource parameter of LSMTree/BTree is accepted but never used by the repo, so disk contention cannot be injected",
     "snapshot isolation is judged on committed transactions only and the snapshot may be any commit prefix, not necessarily the one "
     "at begin (weaker reading); SERIALIZABLE is judged on committed transactions via conflict-graph acyclicity",
-    "one isolation level per transaction scenario (mixed levels are outside the statement)",
+    "transaction scenarios either use one isolation level for all transactions or let every transaction draw its own level "
+    "(begin(isolation=...)); with mixed levels the committed SERIALIZABLE transactions must be serializable together with the "
+    "writes of every other committed transaction (graph: ww edges between all committed transactions, wr/rw edges only from reads of "
+    "SERIALIZABLE transactions); reads of READ_COMMITTED / SNAPSHOT transactions are promised nothing beyond their own clauses",
 ]
 EXPECTED_PROBES = [
     "probe.read_during_flush", "probe.read_during_compaction", "probe.compaction_requested_while_one_in_progress", "probe.overlapping_flushes",
@@ -79,7 +82,8 @@ EXPECTED_PROBES = [
     "probe.read_overlaps_write_same_key", "probe.read_of_deleted_key", "probe.tombstone_in_sstable", "probe.deepest_level_reached",
     "probe.three_levels_occupied", "probe.bloom_false_positive_on_read_path", "probe.scan_nonempty", "probe.trigger_compaction_started",
     "probe.btree_split_during_get", "probe.btree_depth_ge_3", "probe.tx_conflict_abort", "probe.tx_commit_between_reads",
-    "probe.tx_overlap", "probe.tx_read_own_write",
+    "probe.tx_overlap", "probe.tx_read_own_write", "probe.tx_mixed_levels_committed",
+    "probe.non_serializable_commit_wrote_key_read_by_open_serializable_tx", "probe.tx_commit_inside_another_commit_latency",
     "probe.sync_api_op_in_history", "probe.preloaded_through_put_sync", "probe.synchronous_flush_in_history",
     "probe.tx_commit_in_storage_history", "probe.l0_holds_sync_and_generator_flush_tables", "probe.mixed_origin_l0_tables_compacted",
 ]
@@ -130,11 +134,11 @@ M_MIX = (35, 15, 35, 15)
 
 def gen(rng, tier):
     r = rng.random()
-    if r < 0.55:
+    if r < 0.50:
         return _gen_lsm(rng)
-    if r < 0.70:
+    if r < 0.63:
         return _gen_btree(rng)
-    if r < 0.75:
+    if r < 0.67:
         return _gen_kv(rng)
     return _gen_tx(rng)
 
@@ -202,11 +206,11 @@ def _gen_kv(rng):
             "preload": [rng.randrange(len(keys)) for _ in range(rng.randint(0, 4))] if sync else []}
 
 
-TX_GAP_NS = [0, 0, 1_000, 5_000, 20_000, 100_000, 1_000_000, 2_500_000]
+TX_GAP_NS = [0, 0, 1_000, 5_000, 5_000, 10_000, 20_000, 100_000, 1_000_000, 2_500_000]
 
 
 def _gen_tx(rng):
-    iso = rng.choice(["rc", "si", "ser"])
+    iso = rng.choice(["rc", "si", "ser", "mixed", "mixed"])  # mixed: every transaction draws its own level (begin(isolation=...))
     keys = _keys(rng)[: rng.randint(3, 4)] if rng.random() < 0.6 else _keys(rng)
     skind = rng.choices(["lsm", "btree", "kv"], weights=[45, 25, 30])[0]
     if skind == "lsm":
@@ -215,15 +219,23 @@ def _gen_tx(rng):
     elif skind == "btree":
         store = {"kind": "btree", "order": rng.choice([3, 3, 4]), "r_us": rng.choice([100, 1000]), "w_us": 500}
     else:
-        store = {"kind": "kv", "r_us": rng.choice([0, 100, 1000]), "w_us": 500, "d_us": 500}
+        store = {"kind": "kv", "r_us": rng.choice([0, 0, 5, 100, 1000]), "w_us": 500, "d_us": 500}
     n = len(keys)
     txs = []
+    # burst: transactions of similar shape started within a few microseconds on a store with instantaneous reads, so that
+    # commits (validation, apply, 10 us commit latency) of different transactions fall into each other's commit windows
+    burst = rng.random() < 0.3
+    if burst and skind == "kv":
+        store["r_us"] = 0
+    gaps = [0, 0, 0, 1_000, 2_000, 4_000] if burst else TX_GAP_NS
+    starts = [0, 0, 1_000, 2_000, 3_000, 5_000, 8_000] if burst else [0, 0, 0, 1_000, 2_000, 5_000, 10_000, 500_000, 2_000_000, 4_000_000]
     for _ in range(rng.randint(2, 8)):
         ops = []
-        for _ in range(rng.randint(1, 6)):
-            ops.append({"op": rng.choice(["r", "r", "w"]), "k": rng.randrange(n), "gap_ns": rng.choice(TX_GAP_NS)})
-        txs.append({"start_ns": rng.choice([0, 0, 0, 1_000, 10_000, 500_000, 2_000_000, 4_000_000]), "ops": ops,
-                    "end": "abort" if rng.random() < 0.1 else "commit", "end_gap_ns": rng.choice(TX_GAP_NS)})
+        for _ in range(rng.randint(1, 3) if burst else rng.randint(1, 6)):
+            ops.append({"op": rng.choice(["r", "r", "w"]), "k": rng.randrange(n), "gap_ns": rng.choice(gaps)})
+        txs.append({"iso": rng.choice(["rc", "si", "ser", "ser"]) if iso == "mixed" else iso,
+                    "start_ns": rng.choice(starts), "ops": ops,
+                    "end": "abort" if rng.random() < 0.1 else "commit", "end_gap_ns": rng.choice(gaps)})
     return {"kind": "tx", "klass": f"tx/{iso}/{skind}", "seed": rng.getrandbits(32), "keys": keys, "iso": iso,
             "engine": store, "init": sorted(rng.sample(range(n), rng.randint(0, n))), "txs": txs}
 
@@ -680,11 +692,11 @@ class TxRun:
         self.keys = sc["keys"]
         if not isinstance(self.keys, list) or not self.keys or sorted(set(self.keys)) != self.keys:
             raise InvalidScenario("keys")
-        if sc.get("iso") not in ISO:
+        if sc.get("iso") not in ISO and sc.get("iso") != "mixed":
             raise InvalidScenario("iso")
         self.store, ents = S.build_engine(sc["engine"])
         self.scls = type(self.store).__name__
-        self.tm = TransactionManager("txm", store=self.store, isolation=ISO[sc["iso"]])
+        self.tm = TransactionManager("txm", store=self.store, isolation=ISO.get(sc["iso"], IsolationLevel.SNAPSHOT_ISOLATION))
         self._stamp = 0
         self.recs = []
         txs = sc.get("txs")
@@ -708,8 +720,11 @@ class TxClient(Entity):
         if not isinstance(spec, dict) or not isinstance(spec.get("ops"), list):
             raise InvalidScenario("tx")
         self.idx, self.spec, self.run = idx, spec, run
-        self.rec = {"id": idx, "reads": [], "writes": {}, "begin": None, "cstamp": None, "end": None, "outcome": "unfinished",
-                    "splits": None}
+        iso = spec.get("iso", run.sc["iso"]) if run.sc["iso"] == "mixed" else run.sc["iso"]
+        if iso not in ISO:
+            raise InvalidScenario("tx iso")
+        self.rec = {"id": idx, "iso": iso, "reads": [], "writes": {}, "begin": None, "cstamp": None, "end": None,
+                    "outcome": "unfinished", "splits": None}
         run.recs.append(self.rec)
 
     def handle_event(self, event):
@@ -719,7 +734,7 @@ class TxClient(Entity):
         R, rec = self.run, self.rec
         n = len(R.keys)
         rec["begin"] = R.stamp()
-        tx = yield from R.tm.begin()
+        tx = yield from (R.tm.begin(isolation=ISO[rec["iso"]]) if R.sc["iso"] == "mixed" else R.tm.begin())
         for i, op in enumerate(self.spec["ops"]):
             if not isinstance(op, dict):
                 raise InvalidScenario("op")
@@ -816,8 +831,10 @@ def _judge_tx(R: TxRun, counters: dict):
         if final != ver[k][-1][1]:
             return (f"C14/tx-final-state/{R.scls}/{iso}", f"after all commits key {k} holds {final!r}, last committed version is {ver[k][-1]}")
 
-    if iso == "ser":
-        # direct serialization graph over committed transactions
+    if any(r["iso"] == "ser" for r in committed):
+        # direct serialization graph over ALL committed transactions: every transaction's writes (ww by commit order), and
+        # the reads of the SERIALIZABLE ones (wr into them, rw out of them).  Reads of READ_COMMITTED / SNAPSHOT transactions add
+        # no edges: they are not promised serializability.  Any cycle therefore passes through a SERIALIZABLE transaction.
         idx = {r["id"]: r for r in committed}
         edges = {}
         def add(a, b, kind):
@@ -827,6 +844,8 @@ def _judge_tx(R: TxRun, counters: dict):
             for i in range(1, len(vs) - 1):
                 add(vs[i][2], vs[i + 1][2], "ww")
         for r in committed:
+            if r["iso"] != "ser":
+                continue
             for rd in r["reads"]:
                 if rd["own"]:
                     continue
@@ -840,10 +859,14 @@ def _judge_tx(R: TxRun, counters: dict):
         cyc = _find_cycle(edges)
         if cyc:
             kinds = sorted(edges[a][b] for a, b in zip(cyc, cyc[1:] + cyc[:1]))
+            levels = {t: idx[t]["iso"] for t in cyc}
+            if any(v != "ser" for v in levels.values()):
+                counters["probe.cycle_involves_non_serializable_writer"] = 1
             return (f"C14/serializable-cycle/TransactionManager/{'-'.join(kinds)}",
-                    f"committed SERIALIZABLE transactions {cyc} form a dependency cycle {kinds}; no serial order exists")
-    if iso == "si":
-        for r in committed:
+                    f"committed transactions {cyc} (levels {levels}) form a dependency cycle {kinds} through a SERIALIZABLE "
+                    f"transaction; no serial order of the SERIALIZABLE transactions together with the other committed writes exists")
+    for r in committed:
+        if r["iso"] == "si":
             lo, hi = 0, len(committed)  # admissible snapshot = number of commits included, in [lo, hi]
             detail = None
             for rd in r["reads"]:
@@ -942,6 +965,19 @@ def run_tx(sc):
             for c, wk in cstamps:
                 if rds[0]["ret"] < c < rds[-1]["inv"] and wk & {x["key"] for x in rds}:
                     between = True
+    comm = [r for r in recs if r["outcome"] == "committed"]
+    # a commit attempt whose validation instant lies between another commit's start and its return (its commit latency)
+    if any(a is not b and a["cstamp"] is not None and b["end"] is not None and a["cstamp"] < b["cstamp"] < a["end"]
+           for a in comm for b in recs if b["cstamp"] is not None):
+        counters["probe.tx_commit_inside_another_commit_latency"] = 1
+    if len({r["iso"] for r in comm}) >= 2:
+        counters["probe.tx_mixed_levels_committed"] = 1
+    for r in recs:
+        if r["iso"] == "ser" and r["begin"] is not None and r["end"] is not None and r["reads"]:
+            rk = {x["key"] for x in r["reads"]}
+            if any(o is not r and o["iso"] != "ser" and o["cstamp"] is not None and r["begin"] < o["cstamp"] < r["end"] and rk & set(o["writes"])
+                   for o in comm):
+                counters["probe.non_serializable_commit_wrote_key_read_by_open_serializable_tx"] = 1
     if between:
         counters["probe.tx_commit_between_reads"] = 1
         counters["fault.tx_commit_landed_between_two_reads"] = 1
